@@ -803,7 +803,6 @@ func tolerantOnlyNotExist(P *Prog, fn *ssa.Function, skip int) bool {
 
 func init() { register("C11", checkC11) }
 
-
 // tableRows: v reads column j of the element of a literal table of structs that the enclosing loop ranges over in
 // full — `for _, e := range []T{{…}, {…}} { … e.f … }`. It returns the table's backing array, the column and, per
 // row, the value the literal puts into that column.
